@@ -77,12 +77,16 @@ def run_schedule(cfgs, lengths, schedule, clear=True):
     th = [Thread(c, n) for c, n in zip(cfgs, lengths)]
     for t in schedule:
         if not th[t].enabled():
-            raise RuntimeError("HARNESS: schedule names a disabled thread "
-                               "(replay diverged)")
+            # the thread stopped early (exception / StopIteration): its
+            # remaining events are void; the mismatch with the baseline is
+            # what gets reported
+            continue
         th[t].step()
     for t in th:
-        if t.enabled():
-            raise RuntimeError("HARNESS: schedule ended with an enabled thread")
+        guard = 0
+        while t.enabled() and guard < 10000:
+            t.step()
+            guard += 1
     return [(t.stream, t.error) for t in th]
 
 
